@@ -499,7 +499,7 @@ class ParamGen(Gen):
             if ci is None:
                 raise SkeletonError("object parameter without class")
             self.imports.add(f"from {self.package}.models.{ci.module_name} import {ci.name}")
-            self.emit_object(a["schema"], lines, ind, wire, 1, self.pool_all)
+            self.emit_object(a["schema"], lines, ind, wire, 0, self.pool_all)  # depth 0: lists directly inside the body hold elements
             lines.append(f"{ind}{py} = {ci.name}.from_dict(dict({wire}))")
         else:
             raise SkeletonError(k)
@@ -738,6 +738,8 @@ def _strip_binary(doc: dict, schema: Any) -> Any:
         pk = deref(doc, props[k])
         if pk.get("format") == "binary":
             props[k] = {"const": b"\x00\xffabc"}
+        elif pk.get("type") == "array" and deref(doc, pk.get("items") or {}).get("format") == "binary":
+            props[k] = {**pk, "items": {"const": b"\x00\xffabc"}}
     s["additionalProperties"] = False
     return s
 
